@@ -41,6 +41,12 @@ type c10Scenario struct {
 	Drain     []int   `json:"drain"`
 	Faulty    bool    `json:"faulty"`
 	ExplicitP bool    `json:"explicit_phase_calls"`
+	// ReqCfgLimit > Req.Limit: SecRequestBodyLimit is ReqCfgLimit and a phase-1
+	// ctl:requestBodyLimit lowers it to Req.Limit for this transaction
+	ReqCfgLimit int `json:"req_configured_limit,omitempty"`
+	// EarlyReader >= 0: a body reader is obtained after that many request body
+	// operations (possibly before the body spills) and drained at the end
+	EarlyReader int `json:"early_reader"`
 }
 
 const c10Alphabet = "abcxyz&=%+ \n\x00\xff;"
@@ -99,6 +105,13 @@ func c10Gen(t *verifrt.Tape) *c10Scenario {
 		sc.Drain = append(sc.Drain, t.Range(1, 40))
 	}
 	sc.ExplicitP = t.Draw(8) != 0
+	if t.Draw(4) == 0 {
+		sc.ReqCfgLimit = sc.Req.Limit + 1 + t.Draw(40)
+	}
+	sc.EarlyReader = -1
+	if t.Draw(3) == 0 {
+		sc.EarlyReader = t.Draw(len(sc.Req.Ops) + 1)
+	}
 	return sc
 }
 
@@ -109,6 +122,10 @@ func (sc *c10Scenario) directives(mem int) string {
 		}
 		return "ProcessPartial"
 	}
+	cfgLimit := sc.Req.Limit
+	if sc.ReqCfgLimit > 0 {
+		cfgLimit = sc.ReqCfgLimit
+	}
 	d := fmt.Sprintf(`SecRuleEngine On
 SecRequestBodyAccess On
 SecRequestBodyLimit %d
@@ -118,7 +135,10 @@ SecResponseBodyAccess On
 SecResponseBodyLimit %d
 SecResponseBodyLimitAction %s
 SecResponseBodyMimeType text/plain
-`, sc.Req.Limit, mem, act(sc.Req.Reject), sc.Resp.Limit, act(sc.Resp.Reject))
+`, cfgLimit, mem, act(sc.Req.Reject), sc.Resp.Limit, act(sc.Resp.Reject))
+	if sc.ReqCfgLimit > 0 {
+		d += fmt.Sprintf("SecAction \"id:2,phase:1,pass,nolog,ctl:requestBodyLimit=%d\"\n", sc.Req.Limit)
+	}
 	switch sc.BPMode {
 	case 0:
 		d += "SecAction \"id:1,phase:1,pass,nolog,ctl:forceRequestBodyVariable=On\"\n"
@@ -213,7 +233,14 @@ func c10Run(w *verifrt.World, tier Tier) *RunResult {
 	sc := c10Gen(w.Work)
 	res.Sample = sc
 	res.Hash = hash64(fmt.Sprintf("%+v", *sc))
-	memOut := c10Exec(sc, sc.Req.Limit, res, "mem")
+	if sc.ReqCfgLimit > 0 {
+		res.count("ctl_lowered_limit", 1)
+	}
+	memLimit := sc.Req.Limit
+	if sc.ReqCfgLimit > 0 {
+		memLimit = sc.ReqCfgLimit // "in memory" = in-memory limit equal to the configured limit
+	}
+	memOut := c10Exec(sc, memLimit, res, "mem")
 	var spillOut *c10Outcome
 	if len(res.Viol) == 0 {
 		spillOut = c10Exec(sc, sc.Mem, res, "spill")
@@ -290,7 +317,16 @@ func c10Exec(sc *c10Scenario, mem int, res *RunResult, variant string) *c10Outco
 	m := &c10Model{}
 	L := sc.Req.Limit
 	stopped := false
+	var early io.Reader
+	takeEarly := func(i int) {
+		if sc.EarlyReader == i && early == nil {
+			if p := safely(func() { early, _ = tx.RequestBodyReader() }); p != "" {
+				res.fail("C10", "panic", "early-reader", "RequestBodyReader panicked: %s", p)
+			}
+		}
+	}
 	for i, op := range sc.Req.Ops {
+		takeEarly(i)
 		if m.rejected {
 			break
 		}
@@ -377,6 +413,26 @@ func c10Exec(sc *c10Scenario, mem int, res *RunResult, variant string) *c10Outco
 		if ide != m.limitHit {
 			res.fail("C10", "INBOUND_DATA_ERROR", fp("req"), "INBOUND_DATA_ERROR=1 seen: %v, body reached the limit: %v", ide, m.limitHit)
 		}
+	}
+	takeEarly(len(sc.Req.Ops))
+	if early != nil && !stopped {
+		var got []byte
+		var rerr error
+		if p := safely(func() { got, rerr = drain(early, sc.Drain) }); p != "" {
+			res.fail("C10", "panic", "early-reader/"+variant, "draining a reader obtained after %d body operations panicked: %s", sc.EarlyReader, p)
+			return nil
+		}
+		res.count("early_readers", 1)
+		if rerr != nil {
+			res.fail("C10", "reader-error", "early-reader/"+variant, "a reader obtained after %d body operations failed: %v", sc.EarlyReader, rerr)
+		} else if m.rejected {
+			if len(got) > L || !bytes.HasPrefix(m.supplied, got) {
+				res.fail("C10", "reader-content", "early-reader/reject/"+variant, "reader obtained after %d operations holds %q: not a prefix of %q within the limit %d", sc.EarlyReader, got, m.supplied, L)
+			}
+		} else if !bytes.Equal(got, m.stored) {
+			res.fail("C10", "reader-content", "early-reader/"+variant, "a reader obtained after %d body operations (in-memory limit %d, limit %d) returned %q, want %q", sc.EarlyReader, mem, L, got, m.stored)
+		}
+		logf("early reader: %q", got)
 	}
 	// readers: two independent ones
 	for r := 0; r < 2; r++ {
@@ -565,13 +621,13 @@ func init() {
 			"each scenario executes twice (M=L in memory, M small spilling to the simulated disk) and every return value, REQUEST_BODY/RESPONSE_BODY, *_DATA_ERROR, phase count and two independent readers are compared with a reference buffer. " +
 			"non-trivial = total request bytes within 1 of M or L or beyond; distinct = distinct scenario hash",
 		Assumptions: []string{
-			"engine On; ctl:requestBodyLimit is excluded (the statement speaks of the configured limit)",
+			"engine On; the limit of a transaction is SecRequestBodyLimit or, in 1/4 of the runs, a lower value set in phase 1 by ctl:requestBodyLimit",
 			"after a Reject the exact stored length between 'before the rejecting call' and the limit, and the n returned by the rejecting call, are not compared",
 			"after a call returned an injected stream error only no-panic and temp-file cleanup are checked",
 		},
 		Real:      []string{"coraza transaction API, BodyBuffer, body processors (urlencoded, raw), rule engine, collections"},
 		Stub:      []string{"file system (simos in-memory disk)", "body streams (scripted readers)", "clock", "random id source"},
-		Unchecked: []string{"stored length / n of the rejecting call", "anything after an injected stream error except panic-freedom and cleanup", "ctl-changed limits"},
-		MustHit:   []string{"spill_happened", "req_limit_hit", "resp_limit_hit", "reject_fired", "fault_reader_error_fired"},
+		Unchecked: []string{"stored length / n of the rejecting call", "anything after an injected stream error except panic-freedom and cleanup", "ctl-changed response limits"},
+		MustHit:   []string{"early_readers", "ctl_lowered_limit", "spill_happened", "req_limit_hit", "resp_limit_hit", "reject_fired", "fault_reader_error_fired"},
 	})
 }
